@@ -159,10 +159,8 @@ class SynthDef(metaclass=MetaSynthDef):
                     func).parameters)[len(utl.as_list(prepend)):]
                 self._finish_build()
                 self._func = func
+            finally:
                 _libsc3.main._current_synthdef = None
-            except Exception:
-                _libsc3.main._current_synthdef = None
-                raise
 
     @property
     def name(self):
